@@ -85,8 +85,18 @@ class Atom:
 def _same_num(a, b):
     if isinstance(a, int) and isinstance(b, int):
         return a == b
-    if isinstance(a, Sym) and isinstance(b, Sym):
-        return z3.eq(z3.simplify(a.e), z3.simplify(b.e))
+    if isinstance(a, Sym) and isinstance(b, Sym) and z3.eq(z3.simplify(a.e), z3.simplify(b.e)):
+        return True
+    # equality entailed by the path condition (e.g. decided earlier by a fork)
+    from .values import _CURRENT
+    from .core import to_z3
+    c = _CURRENT[0]
+    if c is not None and getattr(c, 'mode', None) == 'sym':
+        try:
+            if not c.feasible(to_z3(a) != to_z3(b)):
+                return True
+        except Exception:
+            pass
     return None
 
 
@@ -431,7 +441,61 @@ def equal(a, b):
         n = min(len(x.text), len(y.text))
         if x.text[-n:] != y.text[-n:]:
             return False
+    r = _cancel_compare(A, B)
+    if r is not None:
+        return r
     raise OutsideSubset("equality of %r and %r is not determined structurally" % (A, B))
+
+
+def _items(S):
+    out = []
+    for seg in S.segs:
+        if isinstance(seg, Lit):
+            out.extend(('c', ch) for ch in seg.text)
+        elif isinstance(seg, Num):
+            out.append(('n', seg))
+        else:
+            out.append(('a', seg))
+    return out
+
+
+def _heads_differ(x, y):
+    """True if the strings denoted by items x and y certainly start with different characters"""
+    for p, q in ((x, y), (y, x)):
+        if p[0] == 'c':
+            if q[0] == 'c':
+                return p[1] != q[1]
+            if q[0] == 'n':
+                return p[1] not in DIGITS
+            return p[1] in q[1].excludes or (q[1].first_not_digit and p[1] in DIGITS)
+        if p[0] == 'n' and q[0] == 'a':
+            return q[1].first_not_digit or DIGITS <= q[1].excludes
+    return False
+
+
+def _same_item(x, y):
+    if x[0] != y[0]:
+        return False
+    if x[0] == 'c':
+        return x[1] == y[1]
+    if x[0] == 'a':
+        return x[1] is y[1]
+    return _same_num(x[1].n, y[1].n) is True
+
+
+def _cancel_compare(A, B):
+    a, b = _items(A), _items(B)
+    while a and b and _same_item(a[0], b[0]):
+        a, b = a[1:], b[1:]
+    while a and b and _same_item(a[-1], b[-1]):
+        a, b = a[:-1], b[:-1]
+    if not a and not b:
+        return True
+    if not a or not b:
+        return False           # every item denotes a non-empty string
+    if _heads_differ(a[0], b[0]):
+        return False
+    return None
 
 
 def path_split(s):
@@ -563,6 +627,37 @@ def variable_pattern_search(s):
     if not any(S.may_contain('%', x) for x in S.segs):
         return None
     raise OutsideSubset("variable pattern on %r" % S)
+
+
+def atom_len(c, a):
+    """z3 Int for the length of an atom (>= 1), consistent along the path"""
+    if getattr(a, 'len_var', None) is None:
+        a.len_var = z3.Int('len:%s' % a.name)
+        c.assume(a.len_var >= 1)
+    return a.len_var
+
+
+def length(c, s):
+    """len(s) as a symbolic integer: literal lengths + atom lengths (>=1) + number of digits of numerals (>=1)"""
+    S = lift(s)
+    total = 0
+    terms = []
+    for seg in S._raw:
+        if isinstance(seg, Lit):
+            total += len(seg.text)
+        elif isinstance(seg, Atom):
+            terms.append(atom_len(c, seg))
+        else:
+            n = seg.n
+            if isinstance(n, int):
+                total += len(str(n))
+            else:
+                d = z3.Function('ndigits', z3.IntSort(), z3.IntSort())(n.e)
+                c.assume(d >= 1)
+                terms.append(d)
+    if not terms:
+        return total
+    return wrap(z3.Sum([z3.IntVal(total)] + terms))
 
 
 def needs_char_search(s, ch):
